@@ -23,6 +23,7 @@ from harness import simlayout as sl
 from harness import scenarios
 from harness.scenarios import STD
 
+FS, FU = "split_2.5", "unsplit.v2_7"      # output folders of the driver runs: legal names with dots / underscores / digits
 LEVEL = "model_checking"
 NPTS = [6, 8, 8, 8]
 
@@ -115,7 +116,7 @@ def part_latest(ctx, rng, work, events, meta, quick):
     if not quick:
         timesets += [[rng.randint(0, 3 * 10 ** 6) for _ in range(rng.randint(2, 5))] for _ in range(10)]
     for si, times in enumerate(timesets):
-        folder = os.path.join(work, "lt%d" % si)
+        folder = os.path.join(work, "lt%d_1.5" % si)        # folder names with dots and underscores (the time is parsed from file names)
         os.makedirs(folder)
         with open(os.path.join(folder, "initParams.json"), "w") as fh:
             print(consts, file=fh)
@@ -329,9 +330,9 @@ def part_driver(ctx, rng, work, events, meta, quick):
         n = [1, 2, 2, 3, 4, 2, 2, 2][i % 8]
         w = os.path.join(work, "seq%d" % i)
         jobs.append((i, S, stops, n,
-                     {"work": w, "cfile": cfile, "S": S, "nranks": n, "stops": [k * dt for k in stops], "folder": "F",
+                     {"work": w, "cfile": cfile, "S": S, "nranks": n, "stops": [k * dt for k in stops], "folder": FS,
                       "policy": "random", "seed": i, "eager": bool(i % 2)},
-                     {"work": w, "cfile": cfile, "S": S, "nranks": n, "stops": [stops[-1] * dt], "folder": "U",
+                     {"work": w, "cfile": cfile, "S": S, "nranks": n, "stops": [stops[-1] * dt], "folder": FU,
                       "policy": "asc", "seed": 0, "eager": False}))
     with concurrent.futures.ThreadPoolExecutor(max_workers=14) as ex:
         futs = {}
@@ -362,10 +363,10 @@ def part_driver(ctx, rng, work, events, meta, quick):
             K = stops[-1]
             tn = "%06d" % (K * dt)
             try:
-                a, la = read_ck(os.path.join(js["work"], "F"), "grid", tn)
-                b, lb = read_ck(os.path.join(ju["work"], "U"), "grid", tn)
-                pa, _ = read_ck(os.path.join(js["work"], "F"), "phi", tn)
-                pb, _ = read_ck(os.path.join(ju["work"], "U"), "phi", tn)
+                a, la = read_ck(os.path.join(js["work"], FS), "grid", tn)
+                b, lb = read_ck(os.path.join(ju["work"], FU), "grid", tn)
+                pa, _ = read_ck(os.path.join(js["work"], FS), "phi", tn)
+                pb, _ = read_ck(os.path.join(ju["work"], FU), "phi", tn)
                 same = bool(la == lb and a.shape == b.shape and (a == b).all())
                 phisame = bool(pa.shape == pb.shape and (pa == pb).all())
                 dev = float(np.max(np.abs(a - b))) if a.shape == b.shape else -1.0
